@@ -351,6 +351,7 @@ func cmdCheck(args []string) int {
 	sort.Slice(sigList, func(i, j int) bool { return sigList[i].Sig < sigList[j].Sig })
 	exit := 0
 	unrepro := 0
+	minimised := 0
 	knownSeen := map[string]int{}
 	minBudget := 45 * time.Second
 	if tier == "thorough" {
@@ -379,7 +380,12 @@ func cmdCheck(args []string) int {
 			continue
 		}
 		s.Confirmed = true
-		minTape, tries := minimise(b, spec, s.Tape, s.Sig, minBudget, spec.Race, childTimeout)
+		minimised++
+		mb := minBudget
+		if minimised > 6 {
+			mb = 0 // many signatures at once: report the rest with their original tapes
+		}
+		minTape, tries := minimise(b, spec, s.Tape, s.Sig, mb, spec.Race, childTimeout)
 		s.MinTries = tries
 		fin := runTape(b, spec, minTape, "trace", childTimeout, spec.Race)
 		if fin.Res == nil || !hasSig(fin.Res, s.Sig) {
